@@ -7155,3 +7155,31 @@ def vh2(m, run, rule='VH2.vector-helpers-equal-their-definitions'):
         except Unsupported as ex:
             raise AnalysisError('%s: interpreter met an unsupported construct: %s' % (fi.key, ex))
         run.ob(rule, '%s :: %s' % (fi.key, doc), why is None, 'equals its definition on symbolic operands' if why is None else why, 'geomdl/linalg.py:%d in %s' % (fi.node.lineno, fi.key))
+
+
+def data_dictionary(m, pdim):
+    """the dictionary the `data` property of a B-spline shape of the given parametric dimension hands to its evaluator, obtained by
+    interpreting the getter on an object built by the class's own constructor and setters (knots are order tokens); None if that fails"""
+    cname = ('Curve', 'Surface', 'Volume')[pdim - 1]
+    degs, sizes = ((2,), (4,)) if pdim == 1 else (((2, 1), (3, 4)) if pdim == 2 else ((1, 2, 1), (2, 3, 2)))
+    total = 1
+    for s_ in sizes:
+        total *= s_
+    ab = dict(STD_ABSTRACTED)
+    ab[('knotvector', 'normalize')] = Py(lambda sk, node, kv, *a, **k: [Ord(x.rank) for x in kv], 'knotvector.normalize')
+    sk = SK(m, ab)
+    sk.construct = True
+    try:
+        o_ = sk.apply(('class', ('BSpline', cname)), [], {}, None)
+        sfx = [''] if pdim == 1 else ['_' + 'uvw'[d] for d in range(pdim)]
+        for d in range(pdim):
+            sk.call(m.lookup(o_._cls, 'degree' + sfx[d], 'setters'), [o_, degs[d]], {})
+        sk.call(m.lookup(o_._cls, 'set_ctrlpts', 'methods'), [o_, pts(total, 3)] + (list(sizes) if pdim > 1 else []), {})
+        for d in range(pdim):
+            p, n = degs[d], sizes[d]
+            sk.call(m.lookup(o_._cls, 'knotvector' + sfx[d], 'setters'), [o_, [Ord(r) for r in [0] * (p + 1) + list(range(1, n - p)) + [n - p] * (p + 1)]], {})
+        g = m.lookup(o_._cls, 'data', 'getters')
+        out = sk.call(g, [o_], {}) if g is not None else None
+        return out if isinstance(out, dict) else None
+    except (Violation, Unsupported):
+        return None
